@@ -36,10 +36,13 @@ fn acts() -> Vec<MAct> {
 }
 
 fn make_world(spec: &str) -> Option<Box<dyn World>> {
-    if spec != "c14-pubsub" {
-        return None;
-    }
-    Some(Box::new(MultiWorld::new(MultiSpec { prop: "C14".into(), nconns: 4, acts: acts(), probes: vec![], uses_time: false, dump: false, srv_opts: SrvOpts::default() })))
+    // "-sameshard": the same alphabet with all connections in one shard of the server's connection table
+    let stride = match spec {
+        "c14-pubsub" => 1,
+        "c14-pubsub-sameshard" => 16,
+        _ => return None,
+    };
+    Some(Box::new(MultiWorld::new(MultiSpec { prop: "C14".into(), nconns: 4, acts: acts(), probes: vec![], uses_time: false, dump: false, srv_opts: SrvOpts { conn_stride: stride, ..SrvOpts::default() } })))
 }
 
 fn glob_sweep(maxlen: usize) -> Value {
@@ -163,7 +166,8 @@ fn extra_parent(pool: &Pool, tier: &str, report: &mut RunReport) -> Value {
 fn prop() -> DataProp {
     DataProp {
         id: "C14",
-        specs: vec![SpecRun { spec: "c14-pubsub", depth_quick: 4, depth_thorough: 6, budget_quick_s: 30.0, budget_thorough_s: 1500.0 }],
+        specs: vec![SpecRun { spec: "c14-pubsub", depth_quick: 4, depth_thorough: 6, budget_quick_s: 30.0, budget_thorough_s: 1500.0 },
+            SpecRun { spec: "c14-pubsub-sameshard", depth_quick: 3, depth_thorough: 5, budget_quick_s: 20.0, budget_thorough_s: 900.0 }],
         make_world,
         assumptions: e1common::std_assumptions(),
     }
